@@ -6,7 +6,7 @@ SPEC = {
         "technique": "machine-checked proof in Coq (text-level model of stubs.py refined to a stub AST; render/parse round "
                      "trip for the stub fragment grammar) + character-for-character model/implementation correspondence by "
                      "vm_compute, with Python's ast module as the independent parser",
-        "text": "Seven theorems in coq/theories/Stubs*.v for all schemas (lists of virtual / persistent / instance-method "
+        "text": "Eight theorems in coq/theories/Stubs*.v for all schemas (lists of virtual / persistent / instance-method "
                 "entries with arbitrary storage types and FullArgSpecs): whatever generate_stub returns inside the "
                 "preconditions is the rendering of an AST with one class, an annotated attribute for every non-method field "
                 "in order (virtual included), __init__ parameters = self + exactly the persistent fields and one method per "
@@ -28,7 +28,9 @@ SPEC = {
     "streams": ["stubs"],
     "witnesses": ["F4", "F21", "F32"],
     "rule": ("deterministic matrix (empty schema; each of 42 field kinds alone; nested schema / config type; each of 44 "
-             "hand-written signatures alone covering every parameter kind, annotated with builtins / typing constructs / "
+             "types whose __qualname__ differs from __name__ (function-local config types, function-local and "
+             "class-nested classes as storage types and as direct annotations, class-nested classes inside typing "
+             "constructs); 4 field kinds and 2 signatures in the F52 region; hand-written signatures alone covering every parameter kind, annotated with builtins / typing constructs / "
              "strings / nothing, with and without return annotation; 4 signatures in the F45 region; 3 un-renderable "
              "annotations; 13 orders of virtual / persistent / method entries; 11 target x class-name combinations on two "
              "schemas) plus seeded random schemas (0-8 fields, 0-3 methods with generated signatures, nesting depth <= 2, "
@@ -46,6 +48,9 @@ SPEC = {
                     "evaluated as the boolean in_domain on every correspondence case and compared with the harness' own "
                     "classification",
                     "an instance method's function has a plain leading positional parameter (otherwise open finding F45)",
+                    "no type string contains '<' or '>' (str() of a typing construct over a function-local class contains "
+                    "\"<locals>\": open finding F52; excluded from typestr_ok by C20_F52_excluded, recognised on the harness "
+                    "side from the described storage types / annotations of the case, invalidity decided by ast.parse)",
                     "positional-only parameters (def m(cfg, a, /, b)) are outside the property's listed parameter kinds: the "
                     "'/' marker is dropped by getfullargspec and not generated",
                     "annotation objects that are neither types, strings, None nor typing constructs make generate_stub raise "
